@@ -96,6 +96,17 @@ var c02Funcs = map[string]bool{"last": true, "position": true, "count": true, "n
 func c02Case(r *evid.Run, tier string, idx int, g *rng.R) {
 	o := adoc.GenOpts{MinNodes: 6, MaxNodes: 45, NS: g.Intn(2), Misc: g.P(50), Weird: g.P(15)}
 	d := adoc.Generate(g, o)
+	if idx%25 == 11 {
+		// a wide element and an element with many attributes: sizes around the usual strategy thresholds
+		ws := adoc.Thresholds[:8]
+		if tier == "thorough" {
+			ws = adoc.Thresholds
+		}
+		adoc.Widen(g, d, rng.Pick(g, ws), false)
+		adoc.ManyAttrs(g, d, rng.Pick(g, []int{5, 9, 12, 16, 17, 40}))
+		d.Finish()
+		r.Count("cases_with_wide_elements", 1)
+	}
 	w, err := newWorld(d)
 	if err == nil && idx%4 == 3 {
 		// every fourth case runs the evaluator on the independent Cursor implementation (R-ref)
